@@ -362,7 +362,23 @@ def named_by_query_universe():
 # ------------------------------------------------------------------ sequences over one output path
 
 def drop_unreachable(u):
+    """Keeps what the routes reach, and what the Go compiler needs for it: a field that the document leaves out
+    (json:"-", unexported) still names its type."""
     reach = set(T.py_reach(u))
+    todo = list(reach) + [(d["pkg"], d["name"]) for d in u["decls"] if d["pkg"] == "ctl"]
+    while todo:
+        d = T.find_decl(u, *todo.pop())
+        if d is None:
+            continue
+        refs = []
+        for f in d.get("fields") or []:
+            refs += T.texpr_refs(f["type"])
+        if d.get("rhs"):
+            refs += T.texpr_refs(d["rhs"])
+        for k in refs:
+            if k not in reach:
+                reach.add(k)
+                todo.append(k)
     u["decls"] = [d for d in u["decls"] if (d["pkg"], d["name"]) in reach or d["pkg"] == "ctl"]
     return u
 
